@@ -114,6 +114,8 @@ Explain(stream, n, batches, kind, exact) ==
 SubKind(X, Y, id) == IF \E q \in X.subs \cup Y.subs : q.id = id /\ q.kind = "s" THEN "s" ELSE "p"
 
 CONSTANT CheckRef     \* TRUE: a step is only taken if the reference layer agrees (pass with Dev = {})
+\* the server of this scenario ran with extended monitoring (overrides Core!ExtMon in the cfg)
+SessExtMon == Has(Sc, "extmon") /\ Sc.extmon
 
 InitScenario(i) ==
   /\ sc' = i
@@ -150,7 +152,7 @@ RefOK(Snew, Rnew, o, e) ==
   CheckRef =>
     /\ Snew.down \/ (Flat(Snew.store) = Rnew.ref /\ Snew.len = Cardinality(DOMAIN Rnew.ref))
     /\ e.rep.t = "any" \/ o.rep = e.rep \/ o.rep.t = "down"
-    /\ o.rep.t = "down" \/ o.ev = e.ev
+    /\ o.rep.t = "down" \/ NoMon(o.ev) = NoMon(e.ev)
     /\ o.rep.t = "down" \/ o.lk = e.lk
 
 \* a step that goes through the core with request r
@@ -158,7 +160,7 @@ CoreStep(r) ==
   LET res == Result(S, r, R.nacq + 1)
       o   == [rep |-> res.rep, ev |-> res.ev, ls |-> res.ls, lk |-> res.lk]
       rs  == RefStep(R, r, o)
-      Rn  == Feed(rs.R, o, r)
+      Rn  == Overlay(Feed(rs.R, o, r), res.s)
   IN /\ S' = res.s /\ out' = o /\ R' = Rn /\ exp' = rs.exp /\ act' = r
      /\ DeliverOK(S, res.s, o) /\ cons' = NewCons(S, res.s, o)
      /\ outc' = NewOutc(o)
@@ -191,7 +193,7 @@ StepSess(s) ==
                         /\ ~(ss[c].proto = 0 /\ V1Only(r))
                         /\ ~(AuthRequired /\ ss[c].auth.ok /\ ~Granted(ss[c].auth, r))
               rs == RefStep(R, [r EXCEPT !.c = c], o)
-              Rn == IF isCore THEN Feed(rs.R, o, r) ELSE R
+              Rn == Overlay(IF isCore THEN Feed(rs.R, o, r) ELSE R, a.res.s)
               en == IF isCore THEN rs.exp ELSE NoExp
           IN
           /\ ss' = [ss EXCEPT ![c] = a.ss]
